@@ -37,13 +37,13 @@ def one_chain(t, res, seq=None, pos=0):
     r, c = t["shape"]
     quick = t["tier"] == "quick"
     cap_states = 300_000 if quick else 3_000_000
-    deadline = time.time() + (240 if quick else 1800)
+    deadline = time.time() + ((240 if r * c >= 9 else 60) if quick else 1800)  # unchanged tree: 3x3 needs 30-45 s, the smaller shapes < 1 s
     trees = set(R.trees(r, c))
     assert len(trees) == R.matrix_tree_count(r, c)
     base = dict(shape=[r, c], tier=t["tier"])
     key = f"C19|gen_wilson|{r}x{c}"
     if seq is not None:
-        base = dict(sequence=seq, tier=t["tier"])
+        base = dict(sequence=seq[:pos + 1], tier=t["tier"])  # replay: the shapes up to and including this one
         key = f"C19|gen_wilson|{r}x{c}|after_" + ("+".join(f"{a}x{b}" for a, b in seq[:pos]) or "nothing") + "_in_the_same_process"
     kinds = set()
 
@@ -106,7 +106,9 @@ def one_chain(t, res, seq=None, pos=0):
 
 
 # ------------------------------------------------------------------ seeding: the tree drawn is a function of the NumPy seed alone
-SEED_SHAPES = [((2, 2), 64), ((2, 3), 256), ((3, 3), 1536)]
+SEED_SHAPES = [((2, 2), 64), ((2, 3), 256), ((3, 3), 1536),
+               # elongated grids (beyond the shapes whose whole state graph is built in the quick tier): every spanning tree is drawn for some seed
+               ((3, 2), 256), ((2, 4), 2500), ((4, 2), 2500), ((2, 5), 8000), ((5, 2), 8000), ((2, 6), 24000), ((6, 2), 24000)]
 
 
 def seed_task(t, res):
